@@ -11,6 +11,14 @@ import (
 // the source, and so must the work of Compile be.
 func c08Nesting(add func(family, src string)) {
 	rep := strings.Repeat
+	// plain groups and parenthesised process expressions (whose compilation is linear in the depth) far deeper: a
+	// recursive descent that keeps more than a few words per level on the stack ends in a stack overflow, which no
+	// recover() sees
+	for _, d := range []int{5000, 50000, 120000, 200000, 400000} {
+		add("very-deep-nesting", "find all "+rep("(", d)+"'a'"+rep(")", d))
+		add("very-deep-nesting", "set f to transform return "+rep("(", d)+"1"+rep(")", d)+" end\nreplace all 'a' with f")
+		add("very-deep-nesting", "find all 'x' "+rep("(", d)+"'a' 'b'"+rep(")", d)+" 'y'")
+	}
 	for _, d := range []int{10, 25, 40, 100, 500} {
 		// ((( 'a') or 'b') or 'b') ...
 		add("deep-nesting", "find all "+rep("(", d)+"'a'"+rep(") or 'b'", d))
